@@ -329,8 +329,36 @@ func execConcurrent(c *core.Ctx, cs Case) {
 	}
 }
 
+// execTimed runs the scenario once if its outcome is fixed, and several times if a select may go
+// either way (so that both branches are normally seen); the first failing run, or else the last
+// run, is the one that is reported and compared with the model.
 func execTimed(c *core.Ctx, cs Case) {
+	_, exact := plan(cs, strings.HasPrefix(cs.Fn, "Send"))
+	reps := 1
+	if !exact {
+		reps = 6
+	}
+	c.Count("mode_" + cs.Mode)
+	c.Count("sit_" + cs.Sit)
+	for r := 1; r <= reps; r++ {
+		if execTimedOnce(c, cs, r == reps) {
+			return
+		}
+	}
+}
+
+type failure struct{ what, detail string }
+
+// execTimedOnce reports (failures, statistics, model case) and returns true if the run failed or report is set.
+func execTimedOnce(c *core.Ctx, cs Case, report bool) bool {
 	isSend := strings.HasPrefix(cs.Fn, "Send")
+	var fails []failure
+	fail := func(what, detail string) { fails = append(fails, failure{what, detail}) }
+	count := func(stat string) {
+		if report {
+			c.Count(stat)
+		}
+	}
 	ch := mkchan(cs)
 	var timeout time.Duration
 	ctx, cancel := context.WithCancel(context.Background())
@@ -355,9 +383,6 @@ func execTimed(c *core.Ctx, cs Case) {
 	case "cancel_late":
 		go func() { time.Sleep(late); cancel() }()
 	}
-	c.Count("mode_" + cs.Mode)
-	c.Count("sit_" + cs.Sit)
-
 	// partner goroutine: a receiver for the send helpers, a sender of cs.Value for the receive helpers
 	partnerDone := make(chan struct{})
 	var envRcvd []int
@@ -417,7 +442,7 @@ func execTimed(c *core.Ctx, cs Case) {
 		stuck++
 		c.Fail("call blocked", fmt.Sprintf("%s did not return within %v in a scenario where it must", cs.Fn, watchdog))
 		c.Emit(coqCase(cs, nil, sched, doneAtCall, exact, "OBlocked", nil, cs.Closed, nil))
-		return
+		return true
 	}
 	select {
 	case <-partnerDone:
@@ -425,7 +450,7 @@ func execTimed(c *core.Ctx, cs Case) {
 		stuck++
 		c.Fail("partner stuck", fmt.Sprintf("%s returned %+v but the partner goroutine never completed its operation", cs.Fn, o))
 		c.Emit(coqCase(cs, nil, sched, doneAtCall, exact, "OBlocked", nil, cs.Closed, nil))
-		return
+		return true
 	}
 	left, closedAfter := drain(ch)
 	if cs.Sit != "alone" || !unlimited(cs.Mode) || cs.Closed {
@@ -442,24 +467,24 @@ func execTimed(c *core.Ctx, cs Case) {
 	switch {
 	case o.kind != "":
 		res = "OPanic " + o.kind
-		c.Count("res_panic")
+		count("res_panic")
 		if !(isSend && o.kind == "SendOnClosed" && closedAfter) {
-			c.Fail("panic", o.kind)
+			fail("panic", o.kind)
 		}
 	case isSend:
 		res = "OBool " + core.Bool(o.b)
-		c.Count("res_" + core.Bool(o.b))
+		count("res_" + core.Bool(o.b))
 		if o.b {
 			in = append(in, cs.Value) // true: handed over exactly once
 		} // false: not sent at all
 	default:
 		res = fmt.Sprintf("ORecv %s %s", core.Z(o.v), core.Bool(o.ok))
-		c.Count("res_" + core.Bool(o.ok))
+		count("res_" + core.Bool(o.ok))
 		if !o.ok && o.v != 0 {
-			c.Fail("false with a non-zero value", fmt.Sprint(o.v))
+			fail("false with a non-zero value", fmt.Sprint(o.v))
 		}
 		if !o.ok && unlimited(cs.Mode) && !closedAfter {
-			c.Fail("receive without limit returned false on an open channel", "")
+			fail("receive without limit returned false on an open channel", "")
 		}
 	}
 	outv := append([]int{}, envRcvd...) // everything that left the channel, in order, then what is still in it
@@ -468,20 +493,27 @@ func execTimed(c *core.Ctx, cs Case) {
 	}
 	outv = append(outv, left...)
 	if !core.Eq(in, outv) {
-		c.Fail("conservation", fmt.Sprintf("result %s: values that entered %v, values received then left in the channel %v", res, in, outv))
+		fail("conservation", fmt.Sprintf("result %s: values that entered %v, values received then left in the channel %v", res, in, outv))
 	}
 	if closedAfter != (cs.Closed || cs.Sit == "close_late") {
-		c.Fail("closed state", fmt.Sprint(closedAfter))
+		fail("closed state", fmt.Sprint(closedAfter))
 	}
 	if exact {
 		if want := expect(cs, isSend); want != res {
-			c.Fail("result", fmt.Sprintf("got %s, want %s (outcome does not depend on timing in this scenario)", res, want))
+			fail("result", fmt.Sprintf("got %s, want %s (outcome does not depend on timing in this scenario)", res, want))
 		}
-		c.Count("exact")
+		count("exact")
 	} else {
-		c.Count("either")
+		count("either")
+	}
+	if len(fails) == 0 && !report {
+		return false
+	}
+	for _, f := range fails {
+		c.Fail(f.what, f.detail)
 	}
 	c.Emit(coqCase(cs, nil, sched, doneAtCall, exact, res, left, closedAfter, envRcvd))
+	return true
 }
 
 // plan gives the model schedule of the scenario and whether its outcome is the same for every timing.
